@@ -66,7 +66,7 @@ Fixpoint ins_n (x : N) (l : list N) : list N :=
   match l with [] => [x] | y :: r => if y <=? x then y :: ins_n x r else x :: l end.
 Definition sort_n (l : list N) : list N := fold_left (fun a x => ins_n x a) l [].
 
-(* alpn: length-prefixed ids; None on overflow; flag = some id is empty *)
+(* alpn: length-prefixed ids; None on overflow; flag = some id is empty (refused by svcb_view) *)
 Fixpoint alpn_scan (fuel : nat) (b : bytes) : option bool :=
   match fuel with
   | O => None
@@ -99,7 +99,7 @@ Definition svcb_view (key : N) (data : bytes) : option (bytes * N) :=
     if n mod 2 =? 0 then Some (flat_map u16 (sort_n (pairs16 data)), n) else None
   else if key =? 1 then                                                       (* alpn *)
     match alpn_scan (S (length data)) data with
-    | Some has_empty => Some (if has_empty then [] else data, n)
+    | Some has_empty => if has_empty then None else Some (data, n)   (* an empty id is refused (fix 59da914) *)
     | None => None
     end
   else if key =? 2 then (if n =? 0 then Some ([], 0) else None)               (* no-default-alpn *)
